@@ -10,10 +10,56 @@ The merge/quick threshold is extracted from stdlib.rs and handed to the model.
 """
 import json
 import re
+import subprocess
 
 import vlib
 
 STDLIB_RS = vlib.REPO + "/rsjsonnet-lang/src/program/eval/stdlib.rs"
+
+
+# ---------------------------------------------------------------- guarded runner
+
+def _run_once(lines, timeout):
+    """Answers of the harness for `lines`, or None when it does not finish in time."""
+    data = ("\n".join(lines) + "\n").encode("utf-8")
+    try:
+        p = subprocess.run([vlib.HARNESS_BIN], input=data, stdout=subprocess.PIPE,
+                           stderr=subprocess.PIPE, timeout=timeout)
+    except subprocess.TimeoutExpired:
+        return None
+    got = p.stdout.decode("utf-8", "replace").split("\n")
+    if got and got[-1] == "":
+        got.pop()
+    if len(got) != len(lines):          # the driver died: let vlib locate the line
+        return vlib.run_lines(vlib.HARNESS_BIN, lines, timeout=timeout)
+    return got
+
+
+def impl_guarded(lines, chunk=400, timeout=90):
+    """Like vlib.impl, but a non-terminating evaluation (the harness only flushes at
+    exit) costs one time-out instead of one per line: the hanging line answers
+    `timeout`, lines not run answer `skipped`; after two hangs nothing more is run."""
+    out, hangs = [], 0
+    for c in range(0, len(lines), chunk):
+        part = lines[c:c + chunk]
+        if hangs >= 2:
+            out += ["skipped"] * len(part)
+            continue
+        res = _run_once(part, timeout)
+        if res is not None:
+            out += res
+            continue
+        hangs += 1
+        done = 0
+        for l in part:
+            r = _run_once([l], 10)
+            done += 1
+            if r is None:
+                out.append("timeout")
+                break
+            out += r
+        out += ["skipped"] * (len(part) - done)
+    return out
 
 
 # ---------------------------------------------------------------- threshold
@@ -115,7 +161,7 @@ def lengths(thr, tier, rng):
     ls.update([2 * thr + 3, 4 * thr + 3, 100, 127, 128, 129, 199, 200])
     ls = {l for l in ls if l <= max(200, 6 * thr + 2)}
     extra = 80 if tier == "quick" else 400
-    top = 200 if tier == "quick" else 600
+    top = 200 if tier == "quick" else 400
     for _ in range(extra):
         ls.add(rng.randrange(0, top + 1))
     return sorted(ls)
@@ -416,6 +462,9 @@ def run(rep):
         "EqualsValue agrees with it (structure Lawful; C08 is the property about CompareValue itself)",
         "keyF is pure (its result is cached once per element by the code, once per element in the model)",
         "threshold >= 1 (extracted from do_std_sort_slice; with 0 the code would not terminate)",
+        "array length + call depth < max_stack (default 500): do_std_sort / do_std_set push one keyF call per "
+        "element up front, so ~499+ elements report a clean StackOverflow error with the default limit; section 3 "
+        "checks that this is the only effect (correct with a larger max_stack, never a wrong answer)",
         "set operations / setMember are specified on arrays that are sets (strictly key-sorted); on other "
         "arrays only model = implementation is checked",
     ]
@@ -434,9 +483,8 @@ def run(rep):
 
     # 1. integer keys: oracle + model
     lines = gen_int_lines(rep, thr)
-    io = vlib.impl(lines)
+    io = impl_guarded(lines)
     mo = vlib.model(lines)
-    cases = []
     for line, a in zip(lines, io):
         w = line.split(" ")
         sub = w[1]
@@ -447,13 +495,20 @@ def run(rep):
             n = len(parse_ks(w[3]))
             rep.bump("sort-path-merge" if n > thr else ("sort-path-quick" if n >= 2 else "sort-path-trivial"))
         exp = oracle(line)
-        if exp is None:
+        if a == "skipped":
+            rep.bump("skipped-after-hang")
+        elif a == "timeout":
+            rep.violation("c17:" + line, "std.%s does not terminate (no answer within 10 s)" % sub,
+                          {"op": line, "impl": a, "expected": exp})
+        elif exp is None:
             rep.bump("no-oracle(not-a-set)")
         elif a != exp:
             rep.violation("c17:" + line, "std.%s: implementation answers %s, definition gives %s"
                           % (sub, a[:300], exp[:300]), {"op": line, "impl": a[:2000], "expected": exp[:2000]})
-        cases.append({"key": line})
-    vlib.compare(rep, cases, io, mo, label="sort op")
+    for line, a, b in zip(lines, io, mo):
+        if a not in ("skipped", "timeout") and a != b:
+            rep.disagreement(line, "sort op: implementation and model differ",
+                             {"case": {"key": line}, "impl": a[:2000], "model": b[:2000]})
 
     # 2. other key kinds through `eval` (direct oracle only)
     ngen = 600 if rep.tier == "quick" else 6000
@@ -467,19 +522,75 @@ def run(rep):
         gsrc.append(s)
         gexp.append(e)
         gnt.append((kind, nt))
-    gout = vlib.impl([vlib.eval_line(s) for s in gsrc])
+    gout = impl_guarded([vlib.eval_line(s) for s in gsrc])
     for s, e, (kind, nt), o in zip(gsrc, gexp, gnt, gout):
         rep.count("generic:" + s, nt)
         rep.bump("generic-" + kind)
-        bad = check_generic(s, e, o)
+        if o == "skipped":
+            continue
+        bad = "does not terminate (no answer within 10 s)" if o == "timeout" else check_generic(s, e, o)
         if bad:
             rep.violation("c17-generic:" + s[:400], "keys of kind %s: %s" % (kind, bad[:400]),
                           {"eval": s, "expected": e, "impl": o[:2000]})
+
+    # 3. beyond the default stack budget
+    run_big(rep)
+
+
+def big_src(fn, ks):
+    arr = "[" + ", ".join("[%d, \"%d\"]" % (k, i) for i, k in enumerate(ks)) + "]"
+    return "std.join(\",\", [x[1] for x in std.%s(%s, function(x) x[0])])" % (fn, arr)
+
+
+def run_big(rep):
+    """3. lengths beyond the default stack budget: correct with a large max_stack; with the
+    default max_stack either correct or a clean StackOverflow error."""
+    ns = [300, 450, 497, 498, 499, 500, 501, 640, 1000] + ([2000, 5000] if rep.tier != "quick" else [])
+    items = []
+    for n in ns:
+        for fn in ("sort", "set"):
+            ks = gen_keys(rep.rng, n, rep.rng.choice(["dups", "runs", "few", "wide"]))
+            line = "sort %s 30 %s" % (fn, ks_str(ks))
+            items.append((n, fn, big_src(fn, ks), oracle(line)))
+    big = impl_guarded([vlib.eval_line(src, mode="str", max_stack=1000000) for _, _, src, _ in items])
+    dfl = impl_guarded([vlib.eval_line(src, mode="str") for _, _, src, _ in items])
+    first_overflow = None
+    for (n, fn, src, exp), ob, od in zip(items, big, dfl):
+        rep.count("big:%s:%d:%s" % (fn, n, src[-200:]), True)
+        rep.bump("big-" + fn)
+        if "skipped" in (ob, od) or "timeout" in (ob, od):
+            if "timeout" in (ob, od):
+                rep.violation("c17-big:%s:%d" % (fn, n), "std.%s on %d elements does not terminate" % (fn, n),
+                              {"eval": src, "opts": {"mode": "str"}, "expected_str": exp, "impl": "timeout"})
+            continue
+        rb, rd = vlib.parse_eval(ob), vlib.parse_eval(od)
+        got_b = (rb[1] or "-") if rb[0] == "ok" else repr(rb)
+        if got_b != exp:
+            rep.violation("c17-big:%s:%d" % (fn, n), "std.%s on %d elements with max_stack=1000000: %s, definition %s"
+                          % (fn, n, got_b[:200], exp[:200]), {"eval": src, "opts": {"mode": "str", "max_stack": 1000000},
+                                                              "expected_str": exp, "impl": ob[:2000]})
+        if rd[0] == "ok":
+            if (rd[1] or "-") != exp:
+                rep.violation("c17-big-default:%s:%d" % (fn, n), "std.%s on %d elements (default stack): wrong answer"
+                              % (fn, n), {"eval": src, "opts": {"mode": "str"}, "expected_str": exp, "impl": od[:2000]})
+        elif rd[0] == "err" and rd[2] == "StackOverflow":
+            rep.bump("default-stack-overflow")
+            first_overflow = n if first_overflow is None else min(first_overflow, n)
+        else:
+            rep.violation("c17-big-default:%s:%d" % (fn, n), "std.%s on %d elements (default stack): %r"
+                          % (fn, n, rd), {"eval": src, "opts": {"mode": "str"}, "expected_str": exp, "impl": od[:2000]})
+    rep.extra["smallest_length_with_default_stack_overflow"] = first_overflow
 
 
 def replay(r):
     rp = r["replay"]
     vlib.build_harness()
+    if "expected_str" in rp:
+        out = vlib.impl([vlib.eval_line(rp["eval"], **rp["opts"])])[0]
+        res = vlib.parse_eval(out)
+        print("impl  :", res)
+        print("oracle:", rp["expected_str"][:2000])
+        return 0 if res[0] == "ok" and (res[1] or "-") == rp["expected_str"] else 1
     if "eval" in rp:
         out = vlib.impl([vlib.eval_line(rp["eval"])])[0]
         print("impl :", vlib.parse_eval(out))
